@@ -343,8 +343,32 @@ class TemplateGen:
             self.static_plain = 0
         return out
 
+    def bitmap_in_replication(self):
+        """a whole bitmap construct (elements, operator, definition, values, 235000) inside a fixed replication that
+        runs 2-3 times: every repetition defines its bitmap anew"""
+        r, p = self.rng, self.p
+        m = r.randint(2, 3)
+        els = [r.choice(p.numeric) for _ in range(m)]
+        bits = [r.randrange(2) for _ in range(m)]
+        if sum(bits) == m:
+            bits[r.randrange(m)] = 0
+        zeros = bits.count(0)
+        op = r.choice([222, 223, 224])
+        if op == 222:
+            tail = [r.choice(p.c33) for _ in range(zeros)]
+        else:
+            tail = ([8023] if op == 224 else []) + [op * 1000 + 255] * zeros
+        body = els + [op * 1000, 236000, 101000 + m, 31031] + tail + [235000]
+        count = r.choice([2, 3])
+        self.forced.setdefault(31031, []).extend(bits * count)
+        self.bitmap_segments = getattr(self, 'bitmap_segments', []) + [m] * count
+        self.features['bitmap-construct-inside-replication'] += 1
+        return [100000 + len(body) * 1000 + count] + body
+
     def _gen_top(self):
         r = self.rng
+        if self.allow_bitmaps and r.random() < 0.1:
+            self.ids += self.bitmap_in_replication()
         n_items = r.randint(1, self.size)
         for _ in range(n_items):
             it = self.item(0)
